@@ -120,6 +120,16 @@ func runVerdictSchedule(sched []vEvent, lmtp bool, abortWith string) ([]vEvent, 
 				return rec0, fmt.Sprintf("start of transfer %d answered %v", e.T, codes(rs)), nil
 			}
 			rec0 = append(rec0, vEvent{Ev: "start", T: e.T})
+			begun := false
+			for _, c := range be.Calls() {
+				if c.Phase == "begin" && c.Xfer == e.T {
+					begun = true
+				}
+			}
+			if !begun {
+				return rec0, fmt.Sprintf("the delivery of transfer %d had not begun when its first chunk was answered", e.T), nil
+			}
+			rec0 = append(rec0, vEvent{Ev: "begin", T: e.T})
 		case "abort":
 			cmd := "RSET\r\n"
 			if abortWith == "greet" {
@@ -176,9 +186,11 @@ func runVerdictSchedule(sched []vEvent, lmtp bool, abortWith string) ([]vEvent, 
 // verdictFamily runs the gated stale-verdict schedules and lets TLC validate them.
 func verdictFamily(run *evid.Run) (states int64, nsched int) {
 	mc := modelCheck("Verdict", "MC_Verdict.cfg", 4)
-	dev, err := tlcrun.Run("Verdict", "MC_Verdict_deviation.cfg", tlcrun.Opts{Workers: 1})
-	if err != nil || dev.OK || dev.Violation == "" {
-		evid.Inconclusive("Verdict.tla with the deviation switched on must violate its properties (non-vacuity): %v ok=%v", err, dev != nil && dev.OK)
+	for _, cfg := range []string{"MC_Verdict_deviation.cfg", "MC_Verdict_latebegin.cfg", "MC_Verdict_latebegin_c08.cfg"} {
+		dev, err := tlcrun.Run("Verdict", cfg, tlcrun.Opts{Workers: 1})
+		if err != nil || dev.OK || dev.Violation == "" {
+			evid.Inconclusive("Verdict.tla with a deviation switched on (%s) must violate its properties (non-vacuity): %v ok=%v", cfg, err, dev != nil && dev.OK)
+		}
 	}
 	var all []vEvent
 	var starts []int
@@ -244,4 +256,167 @@ func verdictFamily(run *evid.Run) (states int64, nsched int) {
 			Replay: map[string]interface{}{"engine": "verdict", "schedule": scheds[wi], "event": ev}})
 	}
 	return mc.Distinct, nsched
+}
+
+// ---- late-start schedules (C03, C08) ----
+
+// runLateStart holds the delivery goroutine of a chunked transfer before it
+// calls the backend, ends the transfer with endWith, lets the goroutine go and
+// records the order of events for Trace_Verdict.
+func runLateStart(lmtp bool, endWith string) ([]vEvent, string, error) {
+	srv := drv.Start(drv.Cfg{LMTP: lmtp, MaxLine: 2000})
+	defer srv.Stop()
+	cn, err := srv.Dial()
+	if err != nil {
+		return nil, "", err
+	}
+	defer cn.Close()
+	cn.Output()
+	be := srv.BE
+	hello := "EHLO v.test\r\n"
+	if lmtp {
+		hello = "LHLO v.test\r\n"
+	}
+	if _, _, err := cn.Replies([]byte(hello)); err != nil {
+		return nil, "", err
+	}
+	rec0 := []vEvent{{Ev: "reset"}}
+	cn.HoldDeliveryStart()
+	defer cn.ReleaseDeliveryStart()
+	// an empty first chunk: the goroutine is launched, nothing has to be read yet
+	rs, _, err := cn.Replies([]byte("MAIL FROM:<s1@x.test>\r\nRCPT TO:<r1@x.test>\r\nBDAT 0\r\n"))
+	if err != nil {
+		return rec0, "", err
+	}
+	if len(rs) != 3 || rs[2].Code != 250 {
+		return rec0, fmt.Sprintf("start of the transfer answered %v", codes(rs)), nil
+	}
+	rec0 = append(rec0, vEvent{Ev: "start", T: 1})
+	has := func(name, phase string) bool {
+		for _, c := range be.Calls() {
+			if c.Name == name && (phase == "" || c.Phase == phase) {
+				return true
+			}
+		}
+		return false
+	}
+	hasData := func(phase string) bool { return has("Data", phase) || has("LMTPData", phase) }
+	if hasData("begin") {
+		return rec0, "the delivery began although its goroutine is held at the gate", nil
+	}
+	endEv, endCb := "abort", "Reset"
+	switch endWith {
+	case "rset":
+		err = cn.Send([]byte("RSET\r\n"))
+	case "greet":
+		err = cn.Send([]byte(hello))
+	case "quit":
+		err = cn.Send([]byte("QUIT\r\n"))
+		endEv, endCb = "close", "Logout"
+	case "eof":
+		cn.CloseWrite()
+		endEv, endCb = "close", "Logout"
+	}
+	if err != nil {
+		return rec0, "", err
+	}
+	// either the end of the transfer is signalled to the backend while the
+	// delivery is still held (recorded in that order), or the server waits for
+	// the delivery: then it is let go first
+	ended := false
+	for dl := time.Now().Add(400 * time.Millisecond); time.Now().Before(dl); {
+		if has(endCb, "") {
+			ended = true
+			break
+		}
+		time.Sleep(200 * time.Microsecond)
+	}
+	if ended {
+		rec0 = append(rec0, vEvent{Ev: endEv})
+	}
+	cn.ReleaseDeliveryStart()
+	for dl := time.Now().Add(3 * time.Second); time.Now().Before(dl) && !(hasData("end") || (ended && srvQuiet(be))); {
+		time.Sleep(200 * time.Microsecond)
+	}
+	time.Sleep(2 * time.Millisecond)
+	if hasData("begin") {
+		rec0 = append(rec0, vEvent{Ev: "begin", T: 1})
+		if !hasData("end") {
+			return rec0, "the late delivery did not return", nil
+		}
+		rec0 = append(rec0, vEvent{Ev: "finish", T: 1})
+	}
+	if !ended {
+		for dl := time.Now().Add(3 * time.Second); time.Now().Before(dl) && !has(endCb, ""); {
+			time.Sleep(200 * time.Microsecond)
+		}
+		if !has(endCb, "") {
+			return rec0, fmt.Sprintf("%s was never signalled to the backend", endCb), nil
+		}
+		rec0 = append(rec0, vEvent{Ev: endEv})
+	}
+	return rec0, "", nil
+}
+
+func srvQuiet(be *rec.Backend) bool { return be.Quiet() }
+
+// lateStartFamily runs the late-start schedules and lets TLC judge each of
+// them; a rejected one is a Data callback that began after the Reset that
+// ended its transaction (C03) or after Logout (C08).
+func lateStartFamily(run *evid.Run) int {
+	n := 0
+	for _, lmtp := range []bool{false, true} {
+		for _, endWith := range []string{"rset", "greet", "quit", "eof"} {
+			recd, msg, err := runLateStart(lmtp, endWith)
+			n++
+			prop := "C03"
+			if endWith == "quit" || endWith == "eof" {
+				prop = "C08"
+			}
+			rp := map[string]interface{}{"engine": "late-start", "lmtp": lmtp, "end": endWith, "recorded": recd}
+			if err != nil {
+				evid.Inconclusive("late-start schedule (%s): %v", endWith, err)
+			}
+			if msg != "" {
+				run.Report(evid.Div{Prop: prop, Key: "late-start:flow:" + firstWords(msg, 6), Msg: fmt.Sprintf("late-start schedule (lmtp=%v, ended by %s): %s", lmtp, endWith, msg), Replay: rp})
+				continue
+			}
+			var nd strings.Builder
+			for _, e := range recd {
+				b, _ := json.Marshal(e)
+				nd.Write(b)
+				nd.WriteByte('\n')
+			}
+			res, err := tlcrun.Run("Trace_Verdict", "Trace_Verdict.cfg", tlcrun.Opts{Workers: 1, Tags: []string{"HWM"}, Files: map[string][]byte{"trace.ndjson": []byte(nd.String())}})
+			if err != nil {
+				evid.Inconclusive("Trace_Verdict: %v", err)
+			}
+			hwm := 0
+			if h := res.Tagged["HWM"]; len(h) > 0 {
+				hwm, _ = strconv.Atoi(h[len(h)-1])
+			}
+			if res.OK && hwm == len(recd)+1 {
+				continue
+			}
+			if hwm == 0 {
+				evid.Inconclusive("Trace_Verdict did not run: %s\n%s", res.Violation, tailOut(res))
+			}
+			bad := hwm
+			if bad > len(recd) {
+				bad = len(recd)
+			}
+			ev := recd[bad-1]
+			what := "after the Reset that ended its transaction"
+			kind := "after-reset"
+			if prop == "C08" {
+				what, kind = "after Logout", "after-logout"
+			}
+			key := fmt.Sprintf("late-delivery-start:%s", kind)
+			if ev.Ev != "begin" {
+				key = fmt.Sprintf("late-start:rejected:%s:%s", ev.Ev, endWith)
+			}
+			run.Report(evid.Div{Prop: prop, Key: key, Msg: fmt.Sprintf("late-start schedule (lmtp=%v, first chunk BDAT 0, transfer ended by %s while the delivery goroutine had not been scheduled yet): recorded %v - Verdict.tla rejects event %+v: the Data callback began %s", lmtp, endWith, recd, ev, what), Replay: rp})
+		}
+	}
+	return n
 }
